@@ -14,8 +14,14 @@ import traceback
 
 from .paths import VERIF, REPO, LEAN, EVIDENCE, REPLAYS, CORPUS
 
-if hasattr(sys, 'set_int_max_str_digits'):
-    sys.set_int_max_str_digits(0)      # a broken library may hand back huge ints; printing them must not crash the harness
+
+def istr(x):
+    """str(int) that survives Python's int->str digit limit (a broken library may hand back huge ints); the limit itself is
+    NOT lifted, because the library's own int()/str() conversions (e.g. raw address parsing) are subject to it"""
+    try:
+        return str(x)
+    except ValueError:
+        return hex(x)
 
 ALLOWED_AXIOMS = {'propext', 'Classical.choice', 'Quot.sound'}
 FORBIDDEN_SRC = re.compile(r'\b(sorry|admit|native_decide|bv_decide|implemented_by|unsafe)\b|^\s*axiom\s|maxHeartbeats\s+0')
@@ -59,9 +65,12 @@ def grep_forbidden():
         if '.lake' in root:
             continue
         for f in files:
-            if f.endswith('.lean'):
+            if f.endswith('.lean') and not f.startswith('.audit_'):
                 p = os.path.join(root, f)
-                body = _strip_comments(open(p).read())
+                try:
+                    body = _strip_comments(open(p).read())
+                except FileNotFoundError:      # a temporary file of a concurrently running check
+                    continue
                 for ln, line in enumerate(body.split('\n'), 1):
                     if FORBIDDEN_SRC.search(line):
                         hits.append(f'{os.path.relpath(p, LEAN)}:{ln}: {line.strip()[:100]}')
@@ -248,7 +257,10 @@ class Ctx:
 
 
 def _short(x, n=2000):
-    s = x if isinstance(x, str) else repr(x)
+    try:
+        s = x if isinstance(x, str) else repr(x)
+    except ValueError:
+        s = '<unprintable: int too large>'
     return s if len(s) <= n else s[:n] + '...'
 
 
@@ -261,7 +273,7 @@ def jsonable(x):
         return [jsonable(v) for v in x]
     if isinstance(x, (int, str, bool, float)) or x is None:
         if isinstance(x, int) and abs(x) > 2 ** 53:
-            return {'int': str(x)}
+            return {'int': istr(x)}
         return x
     return repr(x)
 
